@@ -218,7 +218,9 @@ def run(case) -> Result:
         d = {'T-1': 59, 'T': 60, 'T+1': 100000, 'T-1-big-output': 59}[dur]
     else:
         d = {'T-1': max(0, T - 1), 'T': T, 'T+1': T + 1, 'T-1-big-output': max(0, T - 1)}[dur]
-    seam.script['slow'] = {'dur': d, 'out': 'slow output\n', 'ignore_term': dur == 'inf-ignore-term'}
+    seam.script['slow'] = {'dur': d, 'out': 'slow output\n', 'ignore_term': dur == 'inf-ignore-term',
+                           # what a child that is killed has already written (both streams): output is no excuse for a timeout
+                           'out_before_timeout': 'partial output written before the timeout\n'}
     if dur == 'T-1-big-output':
         # a child that ends in time but writes a lot on both streams: wherever its output goes, it must be able to finish
         seam.script['slow'].update(out=BIG_OUT, err=BIG_OUT[:100000])
